@@ -28,6 +28,10 @@ CLAIMED = {
    text="Bit stream: bit.Writer (WriteBit/WriteByte/WriteBits/Flush/Reset) and bit.Reader (ReadBit/ReadByte/ReadBits/Reset) are proved against a bit-sequence view (append exactly the given bits, earlier bits untouched; read exactly the next bits, error only at end of data), with machine-checked lemmas that a bit range determines its value (tok_unique, bitsval closed form). XOR value codec: XORDecoder.Next is proved to compute the specification function xorDec* of (stream, position, decoder state); XOREncoder.Write is proved to append bits on which that function yields exactly the written 64-bit pattern, consumes exactly the appended bits and leaves encoder and decoder windows equal - the round trip for every uint64 pattern and every window state. Fixed-width offset table: FixedOffsetEncoder.Write emits header and little-endian entries (loop invariant), FixedOffsetDecoder.Unmarshal/Get read back any table of that shape, Uint32MinWidth is minimal and sufficient (lemma width_fits_every_value). Scalar lemmas: zig-zag round trip both ways, high/low 16-bit split, delta bit packing wrap-around algebra and width. Reuse: Reset of bit writer/reader, XOR encoder/decoder, fixed-offset encoder, TSDDecoder.reset/Reset/ResetWithTimeRange and the snappy reader/writer wrappers leave no state of the previous block (also on the error path).",
    note="Not under contract (so not proved): TSDEncoder (two bytes.Buffer sinks, Bytes/flush glue), the sequence-level induction that composes the per-value round trip over a whole block, DeltaBitPackingEncoder.Bytes / Decoder.Reset/Next (stream.BufferWriter/Reader glue; only the scalar core and Add are proved), the roaring bitmap codec and the snappy algorithm itself (external libraries; only the reuse discipline of the wrappers is proved). Assumed: io.Writer appends what it is given (ghost view out/n; reliable sinks never fail), bytes.Buffer/binary/math/bits (clz/ctz characterised exactly)/snappy stream reset contracts, Go runtime maxAlloc bound on slice lengths, positions below 2^60 bits.",
    design="4/C14"),
+ "C16": dict(
+   text="Contracts on the broker batch are discharged for all batches: EvictOutOfTimeRange marks exactly the rows whose timestamp lies outside [now-behind, now+ahead] and changes nothing else (loop invariant); NewShardGroupIterator gives every row the jump hash of its own tags hash (below the shard count), only permutes rows and makes rows of a shard adjacent; HasRowsForNextShard and HasNextFamily hand out consecutive, non-empty, non-overlapping index ranges that end only when all rows are handed out (so every row is in exactly one shard group and one family group), a shard group holds one shard index, a family group's time is the family time of its first row and every row of the group lies in [familyTime, familyEnd] of that family, the group ends at the first row outside; timeRangeOfTimestamp/familyTimeOfTimestamp return the family range of the interval calculator (interface contract proved for day/month/year in C13) with the lemma k_range_is_family (the range contains exactly the timestamps of that family); isSameFamily's fast path is sound; tag de-duplication (tag.KeyValues.DeDup and BrokerRowProtoConverter.deDupTags) leaves keys strictly increasing, hence sorted and without a repeated key.",
+   note="Assumed: flatbuffers accessors Timestamp/KvsHash are functions of the row's bytes (uninterpreted), jump.Hash is a function of (key, buckets) with range [0,buckets), sort.Sort permutes and orders (contract in contracts/external/sort.spec), one clock reading per call of EvictOutOfTimeRange, timestamps in tsOK (1973..2096). Not under contract: the flatbuffers building of MarshalProtoMetricV1 (that the hash is computed after de-duplication is not decided), validateMetric and the three wire-format parsers, XXHashOfKeyValues (string hashing), replica/channel_database.go; that a de-duplicated tag is one of the given tags is not claimed.",
+   design="4/C16"),
 }
 TECH = "contract-based deductive verification: //@ contracts on the real functions, VCs generated from go/ssa by govc, discharged by z3/cvc5"
 
